@@ -30,6 +30,16 @@ theorem ker_window (α : ℝ) (m M off U0 : ℤ) (x u : ℤ) :
   push_cast
   ring
 
+/-- **proof device, not a model**: neither run by a driver op nor generated, and no theorem of Props/C05 mentions it. The field a
+window of `M × N` output samples whose first sample has integer frequency coordinate `(U0, V0)` would hold for untilted fields
+(each field transformed by `dft2(…, shape=(M,N), shift=-(U0+⌊M/2⌋), offset=field.offset, unitary=True)`, coincident fields
+summed). Its one-sample instance defines `fieldAt`, to which the samples of the C02 model `propagateField` (regenerated window
+kernel) are proved equal (`propagateField_sum_eq_fieldAt`). -/
+noncomputable def propagateWindow (fs : List (Fld ℂ)) (αr αc : ℝ) (M N U0 V0 : ℤ) : Arr ℂ :=
+  { s0 := M, s1 := N,
+    get := fun u v => sumList fs fun f =>
+      (dft2 f.arr αr αc M N (-(RealLike.ofInt (U0 + M / 2))) (-(RealLike.ofInt (V0 + N / 2))) f.o0 f.o1 true).get u v }
+
 /-- the field at integer frequency coordinate `(U, V)`: the one-sample window there -/
 noncomputable def fieldAt (fs : List (Fld ℂ)) (αr αc : ℝ) (U V : ℤ) : ℂ :=
   (propagateWindow fs αr αc 1 1 U V).get 0 0
@@ -69,54 +79,5 @@ theorem window_energy_eq (fs : List (Fld ℂ)) (αr αc : ℝ) (M N : ℕ) (U0 V
   simp only [h0, h1, Int.toNat_natCast]
   rw [sum_range_shift (fun U => ∑ v ∈ range N, Complex.normSq (fieldAt fs αr αc U (V0 + v))) M U0]
   exact sum_congr rfl fun U _ => sum_range_shift (fun V => Complex.normSq (fieldAt fs αr αc U V)) N V0
-
-/-! ## the FFT path: `fftshift ∘ fft2(ortho) ∘ ifftshift` is the centred unitary transform -/
-
-/-- one axis: plain DFT of the `ifftshift`ed samples, read at the `fftshift`ed index, is the centred DFT -/
-theorem fftshift_dft1 (n : ℕ) (hn : 0 < n) (g : ℤ → ℂ) (k : ℤ) :
-    ∑ a ∈ range n, fker n a ((k + ((n : ℤ) - (n : ℤ) / 2)) % n) * g (((a : ℤ) + (n : ℤ) / 2) % n)
-      = ∑ x ∈ range n, ker (1 / n) n n 0 0 x k * g x := by
-  have hper : ∀ z : ℤ, E n ((z + n - (n : ℤ) / 2) * (k - (n : ℤ) / 2)) * g ((z + n) % n)
-      = E n ((z - (n : ℤ) / 2) * (k - (n : ℤ) / 2)) * g (z % n) := by
-    intro z; rw [Int.add_emod_right]; congr 1; exact E_congr n hn _ _ ⟨k - (n : ℤ) / 2, by ring⟩
-  have h1 := sum_range_shift_int n (fun z => E n ((z - (n : ℤ) / 2) * (k - (n : ℤ) / 2)) * g (z % n)) hper (-((n : ℤ) / 2))
-  have h2 : ∑ x ∈ range n, ker (1 / n) n n 0 0 x k * g x
-      = ∑ i ∈ range n, E n (((i : ℤ) - (n : ℤ) / 2) * (k - (n : ℤ) / 2)) * g ((i : ℤ) % n) :=
-    sum_congr rfl fun i hi => by rw [ker_centered_eq, emod_range_nat n i hi]
-  rw [h2, ← h1]
-  refine sum_congr rfl fun a _ => ?_
-  simp only [fker_eq]
-  congr 1
-  · apply E_congr n hn
-    rw [Int.emod_def]
-    exact ⟨a * (1 - (k + ((n : ℤ) - (n : ℤ) / 2)) / n), by ring⟩
-  · rw [sub_neg_eq_add]
-
-theorem fft2ortho_get_eq (x : Arr ℂ) (m n : ℕ) (hm : x.s0 = m) (hn : x.s1 = n) (k l : ℤ) :
-    (fft2ortho (R := ℝ) x).get k l = ((Real.sqrt |(1 / (m : ℝ)) * (1 / (n : ℝ))| : ℝ) : ℂ) *
-      ∑ b ∈ range n, (∑ a ∈ range m, fker m a k * x.get a b) * fker n b l := by
-  unfold fft2ortho
-  rw [dft2_get_eq]
-  simp only [dft2Sum, hm, hn, RealLike.ofInt, Int.toNat_natCast, if_true, Int.cast_one, Int.cast_natCast, fker]
-
-/-- `fftshift ∘ fft2(norm='ortho') ∘ ifftshift` equals the centred unitary `dft2` with `α = (1/S0, 1/S1)` on the same
-grid, at every index, for even and odd sizes -/
-theorem fftPath_eq_dft2 (x : Arr ℂ) (S0 S1 : ℕ) (h0 : x.s0 = S0) (h1 : x.s1 = S1) (hS0 : 0 < S0) (hS1 : 0 < S1) (k l : ℤ) :
-    (fftPath (R := ℝ) x).get k l = (dft2 x (1 / (S0 : ℝ)) (1 / (S1 : ℝ)) S0 S1 0 0 0 0 true).get k l := by
-  have hL : (fftPath (R := ℝ) x).get k l
-      = (fft2ortho (R := ℝ) ⟨x.s0, x.s1, fun i j => x.get (ifftshiftIdxE x.s0 i) (ifftshiftIdxE x.s1 j)⟩).get
-          (fftshiftIdxE x.s0 k) (fftshiftIdxE x.s1 l) := rfl
-  rw [hL, fft2ortho_get_eq ⟨x.s0, x.s1, fun i j => x.get (ifftshiftIdxE x.s0 i) (ifftshiftIdxE x.s1 j)⟩ S0 S1 h0 h1,
-    dft2_get_eq]
-  simp only [if_true, dft2Sum, h0, h1, Int.toNat_natCast, ifftshiftIdxE, fftshiftIdxE]
-  congr 1
-  have inner : ∀ b : ℕ, ∑ a ∈ range S0, fker S0 a ((k + ((S0 : ℤ) - (S0 : ℤ) / 2)) % S0)
-        * x.get (((a : ℤ) + (S0 : ℤ) / 2) % S0) (((b : ℤ) + (S1 : ℤ) / 2) % S1)
-      = ∑ i ∈ range S0, ker (1 / S0) S0 S0 0 0 i k * x.get i (((b : ℤ) + (S1 : ℤ) / 2) % S1) :=
-    fun b => fftshift_dft1 S0 hS0 (fun z => x.get z (((b : ℤ) + (S1 : ℤ) / 2) % S1)) k
-  simp only [inner]
-  have outer := fftshift_dft1 S1 hS1 (fun z => ∑ i ∈ range S0, ker (1 / S0) S0 S0 0 0 i k * x.get i z) l
-  rw [sum_congr rfl (fun b _ => mul_comm _ _), outer]
-  exact sum_congr rfl fun y _ => mul_comm _ _
 
 end Lentil
